@@ -77,7 +77,8 @@ ProtocolOrder == [][m' # m => \/ (m.pc = "timer" /\ m'.pc = "release" /\ m'.step
 DeadStayDead == [][\A i \in 1..Len(m.parts) : ~m.parts[i].alive => \A j \in 1..Len(m'.parts) : m'.parts[j].pid = m.parts[i].pid => ~m'.parts[j].alive]_vars
 NeverReused == [][m'.npid >= m.npid /\ \A j \in 1..Len(m'.parts) : m'.parts[j].pid \in Pids(m.parts) \/ m'.parts[j].pid >= m.npid]_vars
 \* C06, dense layout: the column a value is written to is the particle's identifier
-DenseAddressing == Layout = "dense" => \A k \in 1..Len(m.hist) : \A j \in 1..Len(m.hist[k].cols) : m.hist[k].cols[j] = m.hist[k].parts[j].pid + 1
+ColsArePids(h) == \A k \in 1..Len(h) : Len(h[k].cols) = Len(h[k].parts) /\ \A j \in 1..Len(h[k].cols) : h[k].cols[j] = h[k].parts[j].pid + 1
+DenseAddressing == Layout \in {"dense", "dense_bypos"} => ColsArePids(m.hist) /\ (phase = "restarted" => ColsArePids(r.m.hist))
 \* C08: after the catch-up step and after every further step the restarted run is in the state the uninterrupted run was in
 SnapAt(s) == snap[CHOOSE k \in 1..Len(snap) : snap[k].step = s]
 RestartEq == (phase = "restarted") =>
